@@ -1,4 +1,5 @@
 import UtilModel.RefCount.Props
+import UtilModel.RefCount.ObsC09
 open UtilModel UtilModel.RefCount
 #print axioms UtilModel.accepts_sound
 #print axioms UtilModel.accepted_satisfies
@@ -9,3 +10,5 @@ open UtilModel UtilModel.RefCount
 #print axioms RefCount.one_resolver_running
 #print axioms RefCount.no_panic
 #print axioms RefCount.quiescent_no_pending_api
+#print axioms RefCount.running_frame
+#print axioms RefCount.one_resolver_obs
